@@ -39,15 +39,19 @@ pub enum Scanner {
 pub struct Inst {
     pub sc: Scanner,
     pub now: u64,
-    /// timeout in ms, -1 = Duration::MAX
+    /// timeout in half-milliseconds, negative = (effectively) infinite, see `duration_of`
     pub to: i64,
 }
 
+/// `to`: timeout in HALF milliseconds (so that 2.5 ms can be said); -1 = Duration::MAX;
+/// -(k) for k in 2..=63 = Duration::from_secs(1 << k), "effectively infinite" for any trace.
 pub fn duration_of(to: i64) -> Duration {
-    if to < 0 {
+    if to == -1 {
         Duration::MAX
+    } else if to < -1 {
+        Duration::from_secs(1u64 << ((-to) as u32).min(63))
     } else {
-        Duration::from_millis(to as u64)
+        Duration::from_micros(to as u64 * 500)
     }
 }
 
